@@ -39,6 +39,10 @@ impl UnitVec3 {
     #[verifier::external_body]
     pub fn angle(&self, o: &Vector3) -> (r: f64) ensures rv(r) == v_angle(u_vec(*self), *o) { unimplemented!() }
 }
+// R11 target: `p.coords.norm()` (nalgebra: distance of a point from the origin); uninterpreted, only its sign is assumed
+pub uninterp spec fn p_coords_norm(p: Point3) -> real;
+#[verifier::external_body]
+pub fn vf_p_coords_norm(p: &Point3) -> (r: f64) ensures rv(r) == p_coords_norm(*p), rv(r) >= 0real { unimplemented!() }
 // R11 target: std::f64::consts::PI
 #[verifier::external_body]
 pub fn vf_pi() -> (r: f64) ensures rv(r) == pi_real() { unimplemented!() }
